@@ -36,7 +36,7 @@ def evaluate(patch, props=None, repo="/repo"):
             ctx = R.Ctx(prop, "quick", None, 0)
             ctx.program = P
             try:
-                mod.run(ctx)
+                R.run_rules(mod, ctx)
             except F.AnchorMissing as e:
                 ctx.fail("anchors", "missing", "cannot decide: " + str(e), kind="cannot-decide")
             except Exception:
